@@ -2,6 +2,9 @@ package vgirpc
 
 import (
 	"unicode/utf8"
+
+	"github.com/apache/arrow-go/v18/arrow"
+	"github.com/apache/arrow-go/v18/arrow/array"
 )
 
 //verif:quote approx
@@ -139,7 +142,7 @@ func verifH_C01_find_tokens() {
 // A response that is an error, log-only or empty is never reported as a result.
 //
 //verif:use ipc
-//verif:bound response stream unreadable or of 0..3 zero-row batches each a log (any of 5 non-exception levels), an exception, or a metadata-free batch. The positive direction (a binary result column unwraps to its bytes) needs arrow-go's array.Binary and is outside the claim.
+//verif:bound response stream unreadable or of 0..3 zero-row batches each a log (any of 5 non-exception levels), an exception, or a metadata-free batch. The positive direction is verifH_C01_unary_result_typed.
 func verifH_C01_unary_result_negative() {
 	verifResetIPC()
 	st := &verifInStream{schema: verifDataSchema, failAt: -1}
@@ -160,4 +163,109 @@ func verifH_C01_unary_result_negative() {
 	schema, res, ok := ReadUnaryResult([]byte("S"))
 	verifReach("unwrapped")
 	verifAssert(!ok && schema == nil && res == nil, "an error, log-only, empty or unreadable response is not a result")
+}
+
+// ---- the result column as a real arrow array object ----
+
+type verifC01Cell struct {
+	obj interface{}
+	bin []byte
+	n   int
+}
+
+var verifC01Cells []verifC01Cell
+
+func verifC01Find(obj interface{}) *verifC01Cell {
+	for i := range verifC01Cells {
+		if verifC01Cells[i].obj == obj {
+			return &verifC01Cells[i]
+		}
+	}
+	panic("verifC01: unknown column object")
+}
+
+func verifC01BinLen(a *array.Binary) int                   { return verifC01Find(a).n }
+func verifC01BinValue(a *array.Binary, i int) []byte       { return verifC01Find(a).bin }
+func verifC01StrLen(a *array.String) int                   { return verifC01Find(a).n }
+func verifC01StrValueLen(a *array.String, i int) int       { return len(verifC01Find(a).bin) }
+func verifC01StrValueBytes(a *array.String) []byte         { return verifC01Find(a).bin }
+func verifC01LStrLen(a *array.LargeString) int             { return verifC01Find(a).n }
+func verifC01LStrValueLen(a *array.LargeString, i int) int { return len(verifC01Find(a).bin) }
+func verifC01LStrValueBytes(a *array.LargeString) []byte   { return verifC01Find(a).bin }
+func verifC01BinValueLen(a *array.Binary, i int) int       { return len(verifC01Find(a).bin) }
+func verifC01BinValueBytes(a *array.Binary) []byte         { return verifC01Find(a).bin }
+
+// A response whose first data batch has a binary "result" column unwraps to
+// exactly those bytes; a result column of any other type (a scalar-returning
+// method: utf8, large_utf8, int64) is not a result envelope.
+//
+//verif:use ipc
+//verif:stub (*github.com/apache/arrow-go/v18/arrow/array.String).Len = verifC01StrLen
+//verif:stub (*github.com/apache/arrow-go/v18/arrow/array.String).ValueLen = verifC01StrValueLen
+//verif:stub (*github.com/apache/arrow-go/v18/arrow/array.String).ValueBytes = verifC01StrValueBytes
+//verif:stub (*github.com/apache/arrow-go/v18/arrow/array.LargeString).Len = verifC01LStrLen
+//verif:stub (*github.com/apache/arrow-go/v18/arrow/array.LargeString).ValueLen = verifC01LStrValueLen
+//verif:stub (*github.com/apache/arrow-go/v18/arrow/array.LargeString).ValueBytes = verifC01LStrValueBytes
+//verif:bound 0..2 leading log batches, then one data batch of 1..2 rows whose schema has a column named "result" (alone, or after another column) or no such column; the result column object is a real *array.Binary holding ANY 0..3 bytes, or a *array.String / *array.LargeString / *array.Int64 (what a scalar-returning method answers with); the Binary array's own fields (data.length, valueOffsets, valueBytes) are filled in and arrow-go's accessors run as written; String arrays answer through identity-keyed cells
+func verifH_C01_unary_result_typed() {
+	verifResetIPC()
+	verifC01Cells = nil
+	st := &verifInStream{failAt: -1}
+	for i, n := 0, verifChoice("logs", 3); i < n; i++ {
+		st.batches = append(st.batches, verifNewBatch(verifDataSchema, 0, 0, []string{MetaLogLevel, MetaLogMessage}, []string{"INFO", "m"}))
+	}
+	payload := verifNondetBytes("payload", verifChoice("payload.len", 4))
+	rows := 1 + verifChoice("rows", 2)
+	kind := verifChoice("result.column", 5) // 0 binary, 1 utf8, 2 large_utf8, 3 int64, 4 no result column
+	var col arrow.Array
+	var typ arrow.DataType
+	switch kind {
+	case 0:
+		// a real Binary array: its own fields are filled in, arrow-go's accessors run as written
+		x := new(array.Binary)
+		d := new(array.Data)
+		verifSetField(d, "length", rows)
+		verifSetField(x, "array.data", d)
+		offs := []int32{0, int32(len(payload))}
+		for len(offs) < rows+1 {
+			offs = append(offs, int32(len(payload)))
+		}
+		verifSetField(x, "valueOffsets", offs)
+		verifSetField(x, "valueBytes", payload)
+		col, typ = x, arrow.BinaryTypes.Binary
+	case 1:
+		x := new(array.String)
+		verifC01Cells = append(verifC01Cells, verifC01Cell{obj: x, bin: payload, n: rows})
+		col, typ = x, arrow.BinaryTypes.String
+	case 2:
+		x := new(array.LargeString)
+		verifC01Cells = append(verifC01Cells, verifC01Cell{obj: x, bin: payload, n: rows})
+		col, typ = x, arrow.BinaryTypes.LargeString
+	default:
+		x := new(array.Int64)
+		col, typ = x, arrow.PrimitiveTypes.Int64
+	}
+	name := "result"
+	if kind == 4 {
+		name = "value"
+	}
+	fields := []arrow.Field{{Name: name, Type: typ}}
+	cols := []arrow.Array{col}
+	if verifNondetBool("leading_column") {
+		fields = append([]arrow.Field{{Name: "other", Type: arrow.PrimitiveTypes.Int64}}, fields...)
+		cols = append([]arrow.Array{new(array.Int64)}, cols...)
+	}
+	schema := arrow.NewSchema(fields, nil)
+	st.schema = schema
+	st.batches = append(st.batches, &verifBatch{schema: schema, rows: int64(rows), refs: 1, cols: cols, tag: 9})
+	verifMemQueue = append(verifMemQueue, st)
+	gotSchema, res, ok := ReadUnaryResult([]byte("S"))
+	verifReach("typed-unwrapped")
+	if kind == 0 {
+		verifReach("binary-result")
+		verifAssert(ok && gotSchema == schema && string(res) == string(payload), "a binary result column unwraps to exactly its bytes, with the envelope schema")
+	} else {
+		verifReach("not-an-envelope")
+		verifAssert(!ok && res == nil, "a result column that is not binary (a scalar-returning method), or no result column, is not a result envelope")
+	}
 }
